@@ -3,6 +3,8 @@
 //@ anchor: serde_avro_fast/src/ser/serializer/seq_or_tuple.rs :: fn serialize_element<T: \?Sized>\(&mut self, value: &T\) -> Result<\(\), SerError>
 //@ anchor: serde_avro_fast/src/ser/serializer/seq_or_tuple.rs :: fn end\(mut self\) -> Result<\(\), SerError>
 //@ anchor: serde_avro_fast/src/ser/serializer/seq_or_tuple.rs :: struct ExtractU8Serializer;
+//@ anchor: serde_avro_fast/src/ser/serializer/seq_or_tuple.rs :: pub\(crate\) fn buffered_bytes\(state: &'r mut SerializerState<'c, 's, W>\) -> Self \{
+//@ anchor: serde_avro_fast/src/ser/serializer/seq_or_tuple.rs :: impl<W> Drop for SerializeSeqOrTupleOrTupleStruct<'_, '_, '_, W> \{
 //@ include: spec
 //@ include: common
 
@@ -136,8 +138,163 @@ fn c02_seq_duration_element_step() {
 	std::mem::forget(r2);
 }
 
+fn pool_wf(cfg: &SerializerConfig<'_>) -> bool {
+	let mut ok = true;
+	let mut i = 0;
+	while i < cfg.buffers.field_reordering_buffers.len() {
+		if !cfg.buffers.field_reordering_buffers[i].is_empty() {
+			ok = false;
+		}
+		i += 1;
+	}
+	ok
+}
+
+macro_rules! buffered_bytes_element_step {
+	($name:ident, $n0:expr, $t:ty) => {
+		#[kani::proof]
+		#[kani::unwind(6)]
+		#[kani::stub(alloc::fmt::format, stub_format)]
+		fn $name() {
+			let b0: u8 = kani::any();
+			fresh_state!(config, state);
+			let mut buffer: Vec<u8> = Vec::with_capacity(4);
+			if $n0 >= 1 {
+				buffer.push(b0);
+			}
+			let mut s = ManuallyDrop::new(SerializeSeqOrTupleOrTupleStruct {
+				kind: Kind::BufferedBytes { serializer_state: &mut state, buffer },
+			});
+			let v: $t = kani::any();
+			let r = s.serialize_element(&v);
+			let val_fits = v as i128 >= 0 && v as i128 <= 255;
+			match &s.kind {
+				Kind::BufferedBytes { serializer_state, buffer } => {
+					assert!(serializer_state.writer.is_empty(), "OBL C02.seq_bytes.nothing_written_before_end");
+					if val_fits {
+						assert!(r.is_ok() && buffer.len() == $n0 + 1 && buffer[$n0] == v as u8, "OBL C02.seq_bytes.element_appended_as_its_byte");
+					} else {
+						assert!(r.is_err() && buffer.len() == $n0, "OBL C02.seq_bytes.non_byte_value_is_err_and_buffer_untouched");
+					}
+					assert!($n0 < 1 || buffer[0] == b0, "OBL C02.seq_bytes.earlier_elements_untouched");
+				}
+				_ => assert!(false, "OBL C02.seq_bytes.kind_unchanged"),
+			}
+			std::mem::forget(r);
+		}
+	};
+}
+
+//@ harness: c02_seq_buffered_bytes_element_step_first_i64
+//@   props: C02, C01
+//@   tier: quick
+//@   kind: complete
+//@   fn: ser::serializer::seq_or_tuple::SerializeSeqOrTupleOrTupleStruct::serialize_element (Kind::BufferedBytes: seq presented to a bytes node without advertised length) + ExtractU8Serializer
+//@   domain: empty buffer x element presented as any i64
+//@   post: the element is appended as its byte iff its value fits a byte (0..=255), else Err with the buffer untouched; earlier elements untouched; nothing reaches the output before end()
+buffered_bytes_element_step!(c02_seq_buffered_bytes_element_step_first_i64, 0, i64);
+
+//@ harness: c02_seq_buffered_bytes_element_step_second_u8
+//@   props: C02, C01
+//@   tier: quick
+//@   kind: complete
+//@   fn: ser::serializer::seq_or_tuple::SerializeSeqOrTupleOrTupleStruct::serialize_element (Kind::BufferedBytes: seq presented to a bytes node without advertised length) + ExtractU8Serializer
+//@   domain: buffer holding one symbolic byte x element presented as any u8
+//@   post: the element is appended as its byte iff its value fits a byte (0..=255), else Err with the buffer untouched; earlier elements untouched; nothing reaches the output before end()
+buffered_bytes_element_step!(c02_seq_buffered_bytes_element_step_second_u8, 1, u8);
+
+//@ harness: c02_seq_buffered_bytes_element_step_second_i64
+//@   props: C02, C01
+//@   tier: quick
+//@   kind: complete
+//@   fn: ser::serializer::seq_or_tuple::SerializeSeqOrTupleOrTupleStruct::serialize_element (Kind::BufferedBytes: seq presented to a bytes node without advertised length) + ExtractU8Serializer
+//@   domain: buffer holding one symbolic byte x element presented as any i64
+//@   post: the element is appended as its byte iff its value fits a byte (0..=255), else Err with the buffer untouched; earlier elements untouched; nothing reaches the output before end()
+buffered_bytes_element_step!(c02_seq_buffered_bytes_element_step_second_i64, 1, i64);
+
+//@ harness: c02_seq_buffered_bytes_end_and_drop
+//@   props: C02, C14, C01
+//@   tier: quick
+//@   kind: bounded(buffer of 0..=2 bytes)
+//@   fn: ser::serializer::seq_or_tuple::SerializeSeqOrTupleOrTupleStruct::end (Kind::BufferedBytes) -> SerializerState::write_length_delimited, and Drop (buffer handed back to the configuration's pool)
+//@   domain: buffer content symbolic (0..=2 bytes); pool initially empty or holding one recycled buffer; end() called or the serializer dropped without end() (error path)
+//@   post: end(): output == spec long(len) ++ bytes; either way the buffer returns to the pool EMPTY (pool_wf), so the `assert!(v.is_empty())` of the next pop cannot fire
+#[kani::proof]
+#[kani::unwind(6)]
+#[kani::stub(alloc::fmt::format, stub_format)]
+fn c02_seq_buffered_bytes_end_and_drop() {
+	let b0: u8 = kani::any();
+	let b1: u8 = kani::any();
+	let n0: usize = kani::any();
+	kani::assume(n0 <= 2);
+	let mut config = ManuallyDrop::new(SerializerConfig::new_with_optional_schema(None));
+	if kani::any() {
+		config.buffers.field_reordering_buffers.push(Vec::with_capacity(4));
+	}
+	let pool0 = config.buffers.field_reordering_buffers.len();
+	let mut state = ManuallyDrop::new(SerializerState::from_writer(Vec::new(), &mut config));
+	let mut buffer: Vec<u8> = Vec::with_capacity(4);
+	if n0 >= 1 {
+		buffer.push(b0);
+	}
+	if n0 >= 2 {
+		buffer.push(b1);
+	}
+	let call_end: bool = kani::any();
+	{
+		let s = SerializeSeqOrTupleOrTupleStruct {
+			kind: Kind::BufferedBytes { serializer_state: &mut state, buffer },
+		};
+		if call_end {
+			let r = s.end(); // consumes: Drop runs
+			assert!(r.is_ok(), "OBL C02.seq_bytes.end_is_ok");
+			std::mem::forget(r);
+		} else {
+			drop(s);
+		}
+	}
+	let out = &state.writer;
+	if call_end {
+		assert!(out.len() == 1 + n0 && out[0] == (2 * n0) as u8, "OBL C02.seq_bytes.length_prefix_is_spec_long_of_len");
+		assert!((n0 < 1 || out[1] == b0) && (n0 < 2 || out[2] == b1), "OBL C02.seq_bytes.payload_is_the_elements_in_order");
+	} else {
+		assert!(out.is_empty(), "OBL C02.seq_bytes.drop_writes_nothing");
+	}
+	let cfg: &SerializerConfig<'_> = &state.config;
+	assert!(cfg.buffers.field_reordering_buffers.len() == pool0 + 1, "OBL C14.seq_bytes.buffer_is_recycled");
+	assert!(pool_wf(cfg), "OBL C14.pool.every_pooled_buffer_is_empty_after_seq_bytes");
+}
+
+//@ harness: c14_buffered_bytes_constructor
+//@   props: C14
+//@   tier: quick
+//@   kind: complete
+//@   fn: ser::serializer::seq_or_tuple::SerializeSeqOrTupleOrTupleStruct::buffered_bytes
+//@   domain: pool empty or holding one EMPTY recycled buffer (the pool invariant)
+//@   post: starts from an empty buffer (taken from the pool if there is one); the emptiness assertion on the popped buffer holds under the pool invariant
+#[kani::proof]
+#[kani::unwind(6)]
+#[kani::stub(alloc::fmt::format, stub_format)]
+fn c14_buffered_bytes_constructor() {
+	let mut config = ManuallyDrop::new(SerializerConfig::new_with_optional_schema(None));
+	let pooled: bool = kani::any();
+	if pooled {
+		config.buffers.field_reordering_buffers.push(Vec::with_capacity(4));
+	}
+	let mut state = ManuallyDrop::new(SerializerState::from_writer(Vec::new(), &mut config));
+	let s = ManuallyDrop::new(SerializeSeqOrTupleOrTupleStruct::buffered_bytes(&mut state));
+	match &s.kind {
+		Kind::BufferedBytes { serializer_state, buffer } => {
+			assert!(buffer.is_empty(), "OBL C14.seq_bytes.starts_from_an_empty_buffer");
+			assert!(buffer.capacity() >= 4 || !pooled, "OBL C14.seq_bytes.recycled_buffer_is_reused");
+			assert!(serializer_state.config.buffers.field_reordering_buffers.is_empty(), "OBL C14.seq_bytes.buffer_taken_out_of_the_pool");
+		}
+		_ => assert!(false, "OBL C14.seq_bytes.kind_is_buffered_bytes"),
+	}
+}
+
 //@ harness: c02_seq_steps_canary
-//@   props: C02
+//@   props: C02, C14
 //@   tier: quick
 //@   kind: canary
 #[kani::proof]
